@@ -2,6 +2,7 @@ package props
 
 import (
 	"math"
+	"runtime"
 
 	"github.com/sahandsafizadeh/qeep/component/metrics"
 	"github.com/sahandsafizadeh/qeep/tensor"
@@ -28,6 +29,56 @@ func init() {
 func runC19(c *fw.Ctx) {
 	for i := 0; i < c.Pick(10000, 300000); i++ {
 		c.Case(func(k *fw.K) { c19History(k) })
+	}
+	for i := 0; i < c.Pick(160, 3200); i++ {
+		c.Case(func(k *fw.K) { c19Collected(k) })
+	}
+}
+
+// c19Collected: batches of ONE length, each built directly (TensorOf), used once and dropped, with a garbage collection between
+// the steps: the allocator hands the next batch the addresses of the previous one - whatever the metric remembers about a batch
+// must not be keyed by where its tensors happened to live.
+func c19Collected(k *fw.K) {
+	r := k.Rng
+	n := 1 + r.Intn(6)
+	steps := 6 + r.Intn(30)
+	acc := metrics.NewAccuracy()
+	matched, total := 0, 0
+	k.Case = map[string]any{"family": "same-length batches with a garbage collection in between", "batch_length": n, "steps": steps}
+	k.Key("collected/%d/%d", n, steps/8)
+	k.Count("histories_with_garbage_collections_between_batches", 1)
+	for s := 0; s < steps; s++ {
+		p, t := make([]float64, n), make([]float64, n)
+		for i := range p {
+			t[i] = float64(r.Intn(3))
+			p[i] = float64(r.Intn(3))
+			if p[i] == t[i] {
+				matched++
+			}
+		}
+		total += n
+		var err error
+		if pn := call(func() {
+			tp, e1 := tensor.TensorOf(p, rt.Conf(false))
+			tt, e2 := tensor.TensorOf(t, rt.Conf(false))
+			if e1 != nil || e2 != nil {
+				err = e1
+				if err == nil {
+					err = e2
+				}
+				return
+			}
+			err = acc.Accumulate(tp, tt)
+		}); pn != nil || err != nil {
+			k.Failf("step %d: Accumulate: panic=%v err=%v", s, pn, err)
+			return
+		}
+		got, rerr := acc.Result()
+		if want := float64(matched) / float64(total); rerr != nil || got != want {
+			k.Failf("step %d of same-length batches (length %d) with a garbage collection after every step: Result = %v, expected matched/total = %d/%d = %v", s, n, got, matched, total, want)
+			return
+		}
+		runtime.GC()
 	}
 }
 
